@@ -9,6 +9,7 @@ col.go) over the regenerated facts `Facts.C06.*`, `Facts.TotalRows`,
 of those places in the Go source breaks this file.
 -/
 import XlModel.Lemmas.AdjustGrid
+import XlModel.Lemmas.AdjustCols
 
 namespace XlModel.Props.C06
 open XlModel XlModel.Adjust
@@ -634,5 +635,257 @@ theorem rejected_noop_insert_rows (s s' : Sheet) (hw : WF s.rows) (hno : SqObjec
       .rows row n (by omega) hno (no_hit_sq s .rows row n (by omega) hnohit)
     rw [h] at hok
     exact hst hok
+
+/-! ## The composed grid refinement, columns -/
+
+/-- clause "move every cell … to exactly the position dictated by the shift, leave everything before the edit
+point untouched" for `InsertCols`: on a dense worksheet an accepted `InsertCols(col, n)` keeps the worksheet
+dense, every cell (style, payload) sits exactly `n` columns further right when it was at or right of `col`,
+the `n` new columns are empty, and every row keeps its attributes -/
+theorem insert_cols_refines (s s' : Sheet) (hw : WF s.rows) (col : List Char) (num n : Int)
+    (hnum : Ref.columnNameToNumber col = .ok num) (h1 : 1 ≤ num)
+    (h : insertCols s col n = (.ok, s')) :
+    WF s'.rows ∧
+    (∀ c r, gridAt s'.rows c r = Spec.insAt num n (0, blankTok) (fun i => gridAt s.rows i r) c) ∧
+    (∀ r, attrAt s'.rows r = attrAt s.rows r) ∧
+    s'.cols = adjustCols s.cols num n := by
+  unfold insertCols insertColsG at h
+  simp only [hnum] at h
+  by_cases g1 : n < 1 ∨ n > maxCols
+  · simp [g1] at h
+  simp only [g1, if_false] at h
+  have hn : 1 ≤ n := by omega
+  by_cases hhit' : (Facts.C06.rangeCheckFirst && rangeLimitHit s .cols num n) = true
+  · rw [adjustHelperG_hit s .cols num n hhit'] at h; cases h
+  have hhit : (Facts.C06.rangeCheckFirst && rangeLimitHit s .cols num n) = false := by simpa using hhit'
+  by_cases hl : colLimitHit s.rows num n = true
+  · have : adjustHelperG false s .cols num n = (.err, s) :=
+      adjustHelperG_dims_none s .cols num n (by unfold adjustDims; simp [hl])
+    rw [this] at h; cases h
+  have hl' : colLimitHit s.rows num n = false := by simpa using hl
+  let g : Row → Row := fun r => { r with cells := r.cells.map (shiftCell num n) }
+  have hdims : adjustDims s .cols num n =
+      some { s with rows := s.rows.map g, cols := adjustCols s.cols num n } := by
+    unfold adjustDims; simp [hl', g]
+  have hdense : DenseK Row.r (s.rows.map g) := by
+    intro i y hy
+    rw [List.getElem?_map] at hy
+    obtain ⟨x, hx, rfl⟩ := Option.map_eq_some_iff.mp hy
+    exact hw.rowsDense i x hx
+  -- the limit for each row
+  have hlim : ∀ (k : Nat) (r : Row), s.rows[k]? = some r →
+      num ≤ (r.cells.length : Int) → (r.cells.length : Int) + n ≤ maxCols := by
+    intro k r hr hc
+    unfold colLimitHit at hl'
+    rw [List.any_eq_false] at hl'
+    have h2 := hl' r (List.mem_of_getElem? hr)
+    simp only [Bool.not_eq_true] at h2
+    rw [List.any_eq_false] at h2
+    have hlen : 0 < r.cells.length := by omega
+    have hx := List.getElem_mem (l := r.cells) (n := r.cells.length - 1) (by omega)
+    have h3 := h2 _ hx
+    have hk := (hw.cellsDense r (List.mem_of_getElem? hr)) (r.cells.length - 1) _ (List.getElem?_eq_getElem (by omega))
+    simp only [decide_eq_true_eq] at h3
+    omega
+  obtain ⟨outs, hcr, houts⟩ := checkRowAux_lift g s.rows 0 (fun k r hr => by
+    obtain ⟨out, ho, _⟩ := cells_ins_slots (0 + k) r.cells (by simpa using hw.cellsOk k r hr) num n h1 hn
+      (hlim k r hr)
+    exact ⟨out, ho⟩)
+  have hfw := adjustHelper_forward s _ .cols num n (s.rows.map g) outs hhit hdims
+    (checkSheet_id _ hdense) hcr
+  unfold adjustHelper at hfw
+  rw [hfw] at h
+  have hk := runAdjusters_kept Facts.C06.adjusters .cols num n
+    { ({ s with rows := s.rows.map g, cols := adjustCols s.cols num n } : Sheet) with
+      links := adjustHyperlinks s.links .cols num n, rows := outs }
+  rw [h] at hk
+  have hrows : s'.rows = outs := hk.2.2.1 (by omega)
+  rw [hrows]
+  suffices hv : WF outs ∧ (∀ c r, gridAt outs c r = Spec.insAt num n (0, blankTok) (fun i => gridAt s.rows i r) c) ∧
+      ∀ r, attrAt outs r = attrAt s.rows r from ⟨hv.1, hv.2.1, hv.2.2, hk.2.1⟩
+  apply cols_view s.rows outs (Spec.insAt num n (0, blankTok))
+    (fun c => by unfold Spec.insAt; split <;> (try split) <;> rfl) hw
+  intro k
+  refine ⟨(houts k).1, fun r hr => ?_⟩
+  obtain ⟨out, ho, hs⟩ := (houts k).2 r hr
+  obtain ⟨out', ho', hform⟩ := cells_ins_slots (0 + k) r.cells (by simpa using hw.cellsOk k r hr) num n h1 hn
+    (hlim k r hr)
+  have e : out = out' := by rw [ho] at ho'; exact Except.ok.inj ho'
+  subst e
+  obtain ⟨hc, hp⟩ := cells_ins_view (0 + k) r.cells (by simpa using hw.cellsOk k r hr) num n h1 hn
+    (hlim k r hr) out hform
+  exact ⟨out, hs, by simpa using hc, hp⟩
+
+
+/-- the same clause for `RemoveCol` (the column may be named in any letter case — `removeCol_selects_by_number`):
+the cells of column `col` are dropped and every cell to the right moves left by exactly one; row attributes are
+kept (the `hidden` flags exactly when the sheet has no auto filter) -/
+theorem remove_col_refines (s s' : Sheet) (hw : WF s.rows) (col : List Char) (num : Int)
+    (hnum : Ref.columnNameToNumber col = .ok num) (h1 : 1 ≤ num)
+    (h : removeCol s col = (.ok, s')) :
+    WF s'.rows ∧
+    (∀ c r, gridAt s'.rows c r = Spec.delAt num (fun i => gridAt s.rows i r) c) ∧
+    (∀ r, (attrAt s'.rows r).2 = (attrAt s.rows r).2) ∧
+    (s.filter = none → ∀ r, attrAt s'.rows r = attrAt s.rows r) ∧
+    s'.cols = adjustCols s.cols num (-1) := by
+  unfold removeCol removeColG at h
+  simp only [hnum] at h
+  let e : Row → Row := fun r => { r with cells := eraseFirst (fun x : Cell => x.c == num) r.cells }
+  have he : (s.rows.map fun r : Row => { r with
+      cells := (eraseFirst (fun x => Facts.C06.removeColMatch (Ref.numToName x.c.toNat) x.c col num) r.cells) }) =
+      s.rows.map e := rfl
+  rw [he] at h
+  let s0 : Sheet := { s with rows := s.rows.map e }
+  have hhit : (Facts.C06.rangeCheckFirst && rangeLimitHit s0 .cols num (-1)) = false := by
+    simp [rangeLimitHit_neg s0 .cols num (-1) (by omega)]
+  have hl' : colLimitHit s0.rows num (-1) = false := by
+    unfold colLimitHit
+    rw [List.any_eq_false]
+    intro r hr
+    simp only [Bool.not_eq_true]
+    rw [List.any_eq_false]
+    intro x hx
+    obtain ⟨r0, hr0, rfl⟩ := List.mem_map.mp hr
+    have hx0 := eraseFirst_subset _ _ x hx
+    have a := (hw.cellsDense r0 hr0).le_length Cell.c x hx0
+    have b := hw.colsLe r0 hr0
+    simp only [decide_eq_true_eq]
+    omega
+  let g : Row → Row := fun r =>
+    { r with cells := (eraseFirst (fun x : Cell => x.c == num) r.cells).map (shiftCell num (-1)) }
+  have hmm : (s0.rows.map fun r => { r with cells := r.cells.map (shiftCell num (-1)) }) = s.rows.map g := by
+    simp [s0, e, g, List.map_map, Function.comp_def]
+  have hdims : adjustDims s0 .cols num (-1) =
+      some { s0 with rows := s.rows.map g, cols := adjustCols s0.cols num (-1) } := by
+    unfold adjustDims; simp only [hl', Bool.false_eq_true, if_false, hmm]
+  have hdense : DenseK Row.r (s.rows.map g) := by
+    intro i y hy
+    rw [List.getElem?_map] at hy
+    obtain ⟨x, hx, rfl⟩ := Option.map_eq_some_iff.mp hy
+    exact hw.rowsDense i x hx
+  obtain ⟨outs, hcr, houts⟩ := checkRowAux_lift g s.rows 0 (fun k r hr =>
+    ⟨_, (cells_del_slots (0 + k) r.cells (by simpa using hw.cellsOk k r hr) num h1).1⟩)
+  have hfw := adjustHelper_forward s0 _ .cols num (-1) (s.rows.map g) outs hhit hdims
+    (checkSheet_id _ hdense) hcr
+  unfold adjustHelper at hfw
+  rw [hfw] at h
+  have hk := runAdjusters_kept Facts.C06.adjusters .cols num (-1)
+    { ({ s0 with rows := s.rows.map g, cols := adjustCols s0.cols num (-1) } : Sheet) with
+      links := adjustHyperlinks s0.links .cols num (-1), rows := outs }
+  rw [h] at hk
+  have hcore : s'.rows.map core = outs.map core := hk.1
+  have hv := cols_view s.rows outs (Spec.delAt num)
+    (fun c => by unfold Spec.delAt; split <;> rfl) hw (fun k => by
+      refine ⟨(houts k).1, fun r hr => ?_⟩
+      obtain ⟨out, ho, hs⟩ := (houts k).2 r hr
+      obtain ⟨ho', hc, hform⟩ := cells_del_slots (0 + k) r.cells (by simpa using hw.cellsOk k r hr) num h1
+      have eo : out = (eraseFirst (fun x : Cell => x.c == num) r.cells).map (shiftCell num (-1)) := by
+        rw [ho] at ho'; exact Except.ok.inj ho'
+      subst eo
+      exact ⟨_, hs, by simpa using hc, cells_del_view r.cells num h1 _ hform⟩)
+  have hview2 : ∀ r, (viewAt s'.rows r).2 = (viewAt outs r).2 := fun r => (view_of_core outs s'.rows hcore.symm r).symm
+  refine ⟨WF_of_core outs s'.rows hcore.symm hv.1, ?_, ?_, ?_, hk.2.1⟩
+  · intro c r
+    have := hv.2.1 c r
+    unfold gridAt at this ⊢
+    rw [hview2 r]; exact this
+  · intro r
+    have := congrArg Prod.snd (hv.2.2 r)
+    simp only [attrAt] at this ⊢
+    rw [hview2 r]
+    exact this
+  · intro hnone r
+    have : s'.rows = outs := (hk.2.2.2 (by simpa [s0] using hnone)).1
+    rw [this]; exact hv.2.2 r
+
+/-! ## Column definitions (`ws.Cols`) -/
+
+/-- the attribute token that applies to column `c`: the first `<col>` element whose range covers it -/
+def colTokAt : List Col → Int → String
+  | [], _ => "-"
+  | x :: t, c => if x.min ≤ c ∧ c ≤ x.max then x.tok else colTokAt t c
+
+/-- `adjustCols` on insertion: left of the edit point every column keeps its definition, from `col + n` on
+every column has the definition of the column `n` to its left (the strip in between follows the code's
+"inherit from the left neighbour" rule and is not constrained by the property) -/
+theorem cols_insert_refines (cols : List Col) (col n : Int) (hn : 0 < n) (c : Int) (hc : c ≤ maxCols) :
+    (c < col → colTokAt (adjustCols cols col n) c = colTokAt cols c) ∧
+    (col + n ≤ c → colTokAt (adjustCols cols col n) c = colTokAt cols (c - n)) := by
+  unfold adjustCols
+  simp only [hn, if_true]
+  induction cols with
+  | nil => exact ⟨fun _ => rfl, fun _ => rfl⟩
+  | cons x t ih =>
+    by_cases hdel : x.min ≥ col ∧ (if x.min ≥ col then x.min + n else x.min) > maxCols
+    · have hmin : x.min ≥ col ∧ x.min + n > maxCols := by
+        obtain ⟨a, b⟩ := hdel; simp only [a, if_true] at b; exact ⟨a, b⟩
+      simp only [adjustColsIns, hmin.1, hmin.2, and_self, if_true]
+      constructor
+      · intro h1
+        have : ¬ (x.min ≤ c ∧ c ≤ x.max) := by omega
+        simp only [colTokAt, this, if_false]; exact ih.1 h1
+      · intro h2
+        have : ¬ (x.min ≤ c - n ∧ c - n ≤ x.max) := by omega
+        simp only [colTokAt, this, if_false]; exact ih.2 h2
+    · simp only [adjustColsIns, hdel, if_false]
+      have hk : ¬ (x.min ≥ col ∧ x.min + n > maxCols) := by
+        intro ⟨a, b⟩; exact hdel ⟨a, by simp only [a, if_true]; exact b⟩
+      constructor
+      · intro h1
+        have e : ((if x.min ≥ col then x.min + n else x.min) ≤ c ∧
+            c ≤ (if x.max ≥ col ∨ x.max + 1 = col then (if x.max + n > maxCols then maxCols else x.max + n) else x.max)) ↔
+            (x.min ≤ c ∧ c ≤ x.max) := by
+          split <;> split <;> (try split) <;> constructor <;> intro h <;> omega
+        simp only [colTokAt, e]
+        split
+        · rfl
+        · exact ih.1 h1
+      · intro h2
+        have e : ((if x.min ≥ col then x.min + n else x.min) ≤ c ∧
+            c ≤ (if x.max ≥ col ∨ x.max + 1 = col then (if x.max + n > maxCols then maxCols else x.max + n) else x.max)) ↔
+            (x.min ≤ c - n ∧ c - n ≤ x.max) := by
+          split <;> split <;> (try split) <;> constructor <;> intro h <;> omega
+        simp only [colTokAt, e]
+        split
+        · rfl
+        · exact ih.2 h2
+
+/-- `adjustCols` on removal of column `col`: the definitions are those of the remaining columns -/
+theorem cols_remove_refines (cols : List Col) (col : Int) (c : Int) :
+    colTokAt (adjustCols cols col (-1)) c = Spec.delAt col (colTokAt cols) c := by
+  unfold adjustCols
+  have h0 : ¬ ((-1 : Int) > 0) := by omega
+  simp only [h0, if_false]
+  induction cols with
+  | nil => unfold Spec.delAt; split <;> rfl
+  | cons x t ih =>
+    unfold Spec.delAt at ih ⊢
+    by_cases hdel : x.min = col ∧ x.max = col
+    · simp only [adjustColsDel, hdel, and_self, if_true]
+      by_cases c1 : c < col
+      · simp only [c1, if_true] at ih ⊢
+        have : ¬ (x.min ≤ c ∧ c ≤ x.max) := by omega
+        simp only [colTokAt, this, if_false]; exact ih
+      · simp only [c1, if_false] at ih ⊢
+        have : ¬ (x.min ≤ c + 1 ∧ c + 1 ≤ x.max) := by omega
+        simp only [colTokAt, this, if_false]; exact ih
+    · simp only [adjustColsDel, hdel, if_false]
+      by_cases c1 : c < col
+      · simp only [c1, if_true] at ih ⊢
+        have e : ((if x.min > col then x.min + -1 else x.min) ≤ c ∧
+            c ≤ (if x.max ≥ col then x.max + -1 else x.max)) ↔ (x.min ≤ c ∧ c ≤ x.max) := by
+          split <;> split <;> constructor <;> intro h <;> omega
+        simp only [colTokAt, e]
+        split
+        · rfl
+        · exact ih
+      · simp only [c1, if_false] at ih ⊢
+        have e : ((if x.min > col then x.min + -1 else x.min) ≤ c ∧
+            c ≤ (if x.max ≥ col then x.max + -1 else x.max)) ↔ (x.min ≤ c + 1 ∧ c + 1 ≤ x.max) := by
+          split <;> split <;> constructor <;> intro h <;> omega
+        simp only [colTokAt, e]
+        split
+        · rfl
+        · exact ih
 
 end XlModel.Props.C06
